@@ -574,7 +574,19 @@ func (a *ArgvGen) Step() bool {
 		a.cur = a.cur.Children[name]
 		a.Kinds = append(a.Kinds, "command")
 	case r < wKnown+wCmd+c.Positional:
-		a.Argv = append(a.Argv, sampled(t, "word", wordPool))
+		w := sampled(t, "word", wordPool)
+		if ch, ok := a.cur.Children[w]; ok {
+			// the word is a command name here: it is a command token
+			if a.AvoidLevel != nil && a.AvoidLevel(ch) {
+				w = "foo"
+			} else {
+				a.cur = ch
+				a.Argv = append(a.Argv, w)
+				a.Kinds = append(a.Kinds, "command")
+				break
+			}
+		}
+		a.Argv = append(a.Argv, w)
 		a.Kinds = append(a.Kinds, "positional")
 	case r < wKnown+wCmd+c.Positional+c.Unknown:
 		a.Argv = append(a.Argv, a.unknownTok())
